@@ -1,0 +1,48 @@
+//go:build verif
+
+// Contracts for package parser (comment-only; read by /verif/govc).
+
+package parser
+
+//@ import "errors"
+//@ import "fmt"
+//@ import "github.com/opsidian/parsley/ast"
+//@ import "github.com/opsidian/parsley/data"
+//@ import "github.com/opsidian/parsley/parsley"
+
+//@ props C04,C06,C07,C14
+//@ kindprops frame=C07,C14
+
+//@ -- a parser.Func value is a Parser: calling it is governed by the Parser contract
+//@ functype parser.Func(ctx *parsley.Context, lrc data.IntMap, pos parsley.Pos) (n parsley.Node, cp data.IntSet, err parsley.Error)
+//@   include parsley.Parser.Parse
+
+//@ func (f Func) Parse(ctx *parsley.Context, lrc data.IntMap, pos parsley.Pos) (n parsley.Node, cp data.IntSet, err parsley.Error)
+//@   requires f != nil
+//@   include parsley.Parser.Parse
+
+//@ func (f FuncWrapper) Parse(ctx *parsley.Context, lrc data.IntMap, pos parsley.Pos) (n parsley.Node, cp data.IntSet, err parsley.Error)
+//@   requires f.F != nil
+//@   include parsley.Parser.Parse
+
+//@ -- ------------------------------------------------------------------ EOF node
+//@ method (e EndNode) Token() (r string) = "EOF"
+//@ method (e EndNode) Schema() (r interface{}) = nil
+//@ method (e EndNode) Pos() (r parsley.Pos) = parsley.Pos(e)
+//@ method (e EndNode) ReaderPos() (r parsley.Pos) = parsley.Pos(e)
+//@ specmethod (e EndNode) NodeOK() (r bool) = true
+//@ specmethod (e EndNode) ListSpare() (r int) = 0
+//@ specmethod (e EndNode) ListArr() (r int) = 0
+//@ specmethod (e EndNode) EndsWithin(lo parsley.Pos, hi parsley.Pos) (r bool) = lo <= parsley.Pos(e) && parsley.Pos(e) <= hi
+
+//@ closure Empty$1(ctx *parsley.Context, lrc data.IntMap, pos parsley.Pos) (n parsley.Node, cp data.IntSet, err parsley.Error)
+//@   include parsley.Parser.Parse
+//@   ensures [E6;C01] same(n, ast.EmptyNode(pos)) && err == nil && len(data.ElemsOf(cp)) == 0
+
+//@ closure End$1(ctx *parsley.Context, lrc data.IntMap, pos parsley.Pos) (n parsley.Node, cp data.IntSet, err parsley.Error)
+//@   captures (notFoundErr error)
+//@   requires notFoundErr != nil && !typeis[parsley.Error](notFoundErr)
+//@   include parsley.Parser.Parse
+//@   ensures [eof;C04] (n != nil) == ctx.Reader().IsEOF(pos) && (n != nil ==> same(n, EndNode(pos))) && (n == nil) == (err != nil)
+//@   ensures [errpos;C06] err != nil ==> err.Pos() == pos
+//@   ghost_return when err != nil && err.Pos() > parsley.GhostMaxFail :: parsley.GhostMaxFail = err.Pos()
